@@ -1010,3 +1010,25 @@ mod unit_tests {
         fft_zero64.process(&mut []);
     }
 }
+
+// Verification hook H1 (only compiled with `--cfg rustfft_verif`): report plans and cache keys as canonical text. Add-only.
+#[cfg(rustfft_verif)]
+impl MixedRadixPlan {
+    pub(crate) fn verif_text(&self) -> String {
+        let base = match &self.base {
+            MixedRadixBase::ButterflyBase(len) => format!("(Bfly {})", len),
+            MixedRadixBase::RadersBase(len) => format!("(Raders {})", len),
+            MixedRadixBase::BluesteinsBase(len, inner) => format!("(Bluesteins {} {})", len, inner),
+            MixedRadixBase::CacheBase(len) => format!("(Cache {})", len),
+        };
+        let rs: Vec<String> = self.radixes.iter().map(|r| r.to_string()).collect();
+        format!("(AvxPlan {} {} [{}])", self.len, base, rs.join(" "))
+    }
+}
+#[cfg(rustfft_verif)]
+impl<T: FftNum> FftPlannerAvx<T> {
+    /// The plan this planner makes for `len` *under its current cache*, as canonical text
+    pub fn verif_plan(&self, len: usize, direction: FftDirection) -> String {
+        self.debug_plan_fft(len, direction).verif_text()
+    }
+}
